@@ -1,6 +1,7 @@
 package smt
 
 import (
+	"math"
 	"math/rand"
 	"testing"
 	"time"
@@ -195,6 +196,13 @@ func TestExactFPAgreesWithFloatEvaluation(t *testing.T) {
 		FLt(FAdd(fx, fz), FMul(fy, FPC(3))),
 		FLe(FAbs(sys), FMax(fx, FNeg(fy))),
 		FEq(FMin(fx, fy), fz),
+		FLt(FAbs(FSub(fx, fy)), FPC(2000.0000000000002)),
+		FLt(FPC(-0.1), sys),
+		FLe(FPC(20000.000000000004), FSub(FFromS(x), FFromS(y))),
+		FLe(FSub(FFromS(x), FFromS(y)), FPC(3.7)),
+		FEq(fx, FPC(0.3)),
+		FEq(fx, FPC(2.5)),
+		FToS(Ite(Or(FIsNaN(fx), FIsNaN(fy)), FPC(math.NaN()), Ite(FLt(fy, fx), fx, Ite(FLt(fx, fy), fy, Ite(And(FEq(fx, FPC(0)), FEq(fy, FPC(0))), FAdd(fx, fy), fx)))), 64),
 	}
 	for k, r := range roots {
 		q := ia.ExactFP(r)
